@@ -258,6 +258,12 @@ impl<T: Qcow2IoOps> Qcow2Dev<T> {
             slice_off
         );
 
+        // the top table entry comes from the image file and may be anything
+        let off = top_e
+            .get_value()
+            .checked_add(slice_off as u64)
+            .ok_or("table entry points beyond the addressable range")?;
+
         // may return entry added in other code paths, but it is guaranteed that
         // we can get one entry here
         let entry = cache.put_into_wmap_with(key, || AsyncRwLock::new(slice));
@@ -271,7 +277,6 @@ impl<T: Qcow2IoOps> Qcow2Dev<T> {
 
         // if rb becomes update, it has been committed in read map already
         if !slice.is_update() {
-            let off = top_e.get_value() + slice_off as u64;
             slice.set_offset(Some(off));
 
             if !self.cluster_is_new(off >> info.cluster_bits()).await {
